@@ -5,59 +5,177 @@ import Driver.C02
 import Driver.C03
 import Driver.C04
 
-/-! Driver for C05 (decoders never panic / never over-allocate on hostile input).
-    `wkb <hex> => um ; st ; sc-any ; psc-any ; wsc-any ; A <alloc bytes> <stable>`
-    The WKT / MVT / GeoJSON hostile streams are judged by the handlers of C04 / C03 / C02. -/
+/-! Driver for C05 (decoders never panic, never loop forever, never over-allocate on hostile input).
+
+    `wkb <hex> [dest] => um ; st ; sc ; psc ; wsc ; dsc ; dpsc ; dwsc ; A <um> <st> <scan> <stable>`
+      five decode outcomes into a nil destination, the three scanners into the typed destination `dest`,
+      measured TotalAlloc of `Unmarshal`, of `Decode` and of `ewkb.Scanner(dest).Scan`, re-encoding stability.
+      Every outcome is compared with the model; every measured allocation with what the MODEL's accounting of
+      the decoder's own `make` calls says (`unmarshalAlloc`, `decodeAlloc`, `scanDestAlloc` in Orb/WKB.lean),
+      and the model's figure with the property's bound `allocPerByte·len + allocFixed`.
+    `wkbnest <kind> <k> => ok | err … | crash … | timeout`   (decoded in a child process)
+    `wkt` / `mvt` / `gj`: the hostile streams, judged by the handlers of C04 / C03 / C02; C05 adds the
+      watchdog verdict and, for `mvt`, the property's own allocation bound against the INPUT length
+      (C03 judges `UnmarshalGzipped` against the unzipped length). -/
 namespace Driver.C05
 open Orb Orb.Proto Orb.WKB Driver.C01
 
-/-- allocation allowed for one WKB decode call: proportional to the input plus the fixed caps
-    (MaxPointsAlloc points of 16 bytes, MaxMultiAlloc headers, bufio / reader overhead) -/
-def wkbAllocBound (len : Nat) : Nat :=
-  512 * len + 16 * Generated.Params.wkb_MaxPointsAlloc * 2 + 64 * Generated.Params.wkb_MaxMultiAlloc + 65536
+/-- What a measured TotalAlloc may exceed the model's accounting by: size-class rounding and `append`
+    growth of the accounted slices (factor 2), the copy of the input handed to the decoder, readers,
+    error values and `append` beyond a capped capacity (32 bytes per input byte), and what the
+    harness's other goroutines allocate meanwhile (64 KiB). -/
+def measuredBound (model len : Nat) : Nat := 2 * model + 32 * len + 65536
+
+/-- the property's bound, on the model's own figure -/
+def linearBound (len : Nat) : Nat := allocPerByte * len + allocFixed
+
+/-- `wkbcommon.Scan`'s framing (`\x…`, bare hex) removed; `none` when Scan stops before decoding. -/
+def scanPayload (data : Bytes) : Option Bytes :=
+  if lenLt data 5 then none else
+  let step1 : Option Bytes :=
+    match data with
+    | 92 :: 120 :: rest => hexDecode rest
+    | _ => some data
+  match step1 with
+  | some d =>
+    (match d with
+     | a :: b :: _ => if a = 48 ∧ (b = 48 ∨ b = 49) then hexDecode d else some d
+     | _ => none)
+  | none => none
+
+/-- comparison of a scanner outcome with the model's; the `*orb.Bound` destination of a value with a
+    NaN or a negative zero is compared up to the bound's coordinates (Go's math.Min/Max and the Float
+    twin may pick different NaN payloads / zeros) -/
+def sameScan (d : Dest) (mAny m : R (G × Nat)) (got : String) : Bool :=
+  let ms := showOutcome m
+  if ms == got then true else
+  match d, mAny, m with
+  | .bound, .ok (g, _), .ok (_, srid) =>
+    (hasNaN g || hasNegZero g) && got.startsWith s!"ok {srid} "
+  | _, _, _ => false
 
 def handleWkb (inp out : Toks) : String :=
-  match inp with
-  | [hex] =>
+  match (match inp with
+    | [hex] => some (hex, Dest.any)
+    | [hex, dt] => (parseDest dt).map fun d => (hex, d)
+    | _ => none) with
+  | none => "bad input"
+  | some (hex, d) =>
     (match bytesOfHex hex with
      | none => "bad hex"
      | some bs =>
        if out == ["panic"] then "propfail panic harness" else
        match splitSemi out with
-       | [um, st, sc, psc, wsc, fl] =>
+       | [um, st, sc, psc, wsc, dsc, dpsc, dwsc, fl] =>
          let j (t : Toks) := " ".intercalate t
-         if [um, st, sc, psc, wsc].any (· == ["panic"]) then "propfail panic wkb" else
-         if [um, st, sc, psc, wsc].any (· == ["timeout"]) then "propfail timeout wkb" else
+         let all := [um, st, sc, psc, wsc, dsc, dpsc, dwsc]
+         if all.any (· == ["panic"]) then "propfail panic wkb" else
+         if all.any (· == ["timeout"]) then "propfail timeout wkb" else
+         let len := bs.length
+         let lift (r : R G) : R (G × Nat) :=
+           match r with | .ok g => .ok (g, 0) | .err e => .err e | .panic s => .panic s
          let mum := showOutcome (unmarshal bs)
          let mst := showOutcome (decode bs)
-         let msc := showOutcome (ewkbScan bndF false .any bs)
-         let mpsc := showOutcome (ewkbScan bndF true .any bs)
-         let mwsc := showOutcome (match wkbScan bndF .any bs with
-           | .ok g => .ok (g, 0) | .err e => .err e | .panic s => .panic s)
-         let agree := j um == mum && j st == mst && j sc == msc && j psc == mpsc && j wsc == mwsc
-         let fin (s : String) : String :=
-           if s.startsWith "propfail" || agree then s else s!"diff {mum} ; {mst} ; {msc} ; {mpsc} ; {mwsc}"
-         fin <|
+         let aSc := ewkbScan bndF false .any bs
+         let aPsc := ewkbScan bndF true .any bs
+         let aWsc := lift (wkbScan bndF .any bs)
+         let mDsc := ewkbScan bndF false d bs
+         let mDpsc := ewkbScan bndF true d bs
+         let mDwsc := lift (wkbScan bndF d bs)
+         let agree := j um == mum && j st == mst && j sc == showOutcome aSc && j psc == showOutcome aPsc
+           && j wsc == showOutcome aWsc
+           && sameScan d aSc mDsc (j dsc) && sameScan d aPsc mDpsc (j dpsc) && sameScan d aWsc mDwsc (j dwsc)
+         let diff := s!"diff {mum} ; {mst} ; {showOutcome aSc} ; {showOutcome aPsc} ; {showOutcome aWsc} ; {showOutcome mDsc} ; {showOutcome mDpsc} ; {showOutcome mDwsc}"
          (match fl with
-          | ["A", alloc, stable] =>
-            (match alloc.toNat? with
-             | none => "bad alloc"
-             | some a =>
-               if a > wkbAllocBound bs.length then s!"propfail alloc wkb {a} > {wkbAllocBound bs.length}" else
+          | ["A", aum, ast, asc, stable] =>
+            (match aum.toNat?, ast.toNat?, asc.toNat? with
+             | some aum, some ast, some asc =>
+               -- the model's accounting of the decoder's own `make` calls
+               let mAum := unmarshalAlloc bs
+               let mAst := decodeAlloc bs
+               let mAsc := match scanPayload bs with | some p => scanDestAlloc d p | none => 0
+               -- (1) the implementation allocates what the model accounts for, and no more
+               if aum > measuredBound mAum len then s!"propfail alloc-unexplained wkb-unmarshal measured={aum} model={mAum} len={len}" else
+               if ast > measuredBound mAst len then s!"propfail alloc-unexplained wkb-decode measured={ast} model={mAst} len={len}" else
+               if asc > measuredBound mAsc len then s!"propfail alloc-unexplained wkb-scan measured={asc} model={mAsc} len={len}" else
                if stable != "1" then "propfail reencode-unstable" else
-               if (j um).startsWith "ok" then "ok wkb-value" else "ok wkb-error " ++ (j um))
+               if !agree then diff else
+               -- (2) the model's figure is within the property's bound (theorem for the stream decoder and for
+               --     every top-level type but the three multis; recorded finding for those)
+               if mAst > linearBound len then s!"propfail alloc-superlinear wkb-decode model={mAst} len={len}" else
+               if mAum > linearBound len then s!"propfail alloc-superlinear-nested-multi wkb-unmarshal model={mAum} len={len}" else
+               if mAsc > linearBound len then s!"propfail alloc-superlinear-nested-multi wkb-scan model={mAsc} len={len}" else
+               let typed := if d == .any then "" else if (j dsc).startsWith "ok" then " typed-ok" else " typed-err"
+               if (j um).startsWith "ok" then "ok wkb-value" ++ typed else "ok wkb-error " ++ (j um) ++ typed
+             | _, _, _ => "bad alloc")
           | _ => "bad flags")
        | _ => "bad output")
+
+/-- `wkbnest kind k`: only the implementation's outcome is judged (the nesting depths of interest are
+    beyond what the compiled model can recurse through; shallow nestings are `wkb` cases). -/
+def handleNest (inp out : Toks) : String :=
+  match inp with
+  | [kind, k] =>
+    (match out with
+     | ["ok"] => s!"ok wkbnest {kind}"
+     | "err" :: _ => s!"ok wkbnest {kind} err"
+     | ["crash", "stack-overflow"] => s!"propfail stack-overflow wkb-nesting {kind} depth={k}"
+     | "crash" :: w => "propfail process-crash wkbnest " ++ " ".intercalate w
+     | ["timeout"] => "propfail timeout wkbnest"
+     | _ => "bad output")
   | _ => "bad input"
+
+/-- the property's allocation bound for `mvt.UnmarshalGzipped`, against the length of the INPUT -/
+def gzipBound (len : Nat) : Nat := 512 * len + 1048576
+
+/-- `mvt`: C03's verdict; on `ok`, additionally the allocation of `UnmarshalGzipped` against the input
+    length alone.  The label is given only when C03's handler has accepted the case (outcomes agree with
+    the model and the allocation is explained by the unzipped length). -/
+def handleMvt (inp out : Toks) : String :=
+  let v := Driver.C03.handleHostile inp out
+  if !v.startsWith "ok" then v else
+  match inp with
+  | [hx] =>
+    let len := if hx == "empty" then 0 else hx.length / 2
+    let sec := (splitSemi out).find? fun s => s.head? == some "G"
+    (match sec with
+     | some [_, _, ga, dl] =>
+       (match ga.toNat?, dl.toNat? with
+        | some ga, some dl =>
+          if ga > gzipBound len then s!"propfail alloc-gzip-bomb mvt bytes={ga} len={len} unzipped={dl}" else v
+        | _, _ => v)
+     | _ => v)
+  | _ => v
+
+/-- `wkt`: C04's verdict on the eight outcomes and the allocation of `wkt.Unmarshal`; C05 appends the
+    largest allocation of the seven typed parsers (`; talloc n`), judged against C04's bound. -/
+def handleWkt (inp out : Toks) : String :=
+  let secs := splitSemi out
+  match secs.reverse with
+  | ["talloc", n] :: rest =>
+    let out' := " ; ".intercalate (rest.reverse.map fun t => " ".intercalate t)
+    let v := Driver.C04.handleHostile inp (out'.splitOn " " |>.filter (· != ""))
+    if !v.startsWith "ok" then v else
+    (match n.toNat?, inp.head? with
+     | some a, some hx =>
+       let len := hx.length / 2
+       if a > Driver.C04.allocC * len + Driver.C04.allocK then s!"propfail alloc wkt-typed bytes={a} len={len}" else v
+     | _, _ => "bad talloc")
+  | _ => Driver.C04.handleHostile inp out
 
 def handle (ts : Toks) : String :=
   match ts with
   | op :: rest =>
     let (inp, out) := splitArrow rest
+    -- the outer watchdog / recover of harness/c05.go around the delegated runners (C04's handler knows
+    -- its own `timeout` outcome)
+    if (op == "mvt" || op == "gj") && out == ["timeout"] then s!"propfail timeout {op}" else
+    if (op == "mvt" || op == "gj" || op == "wkt") && out == ["panic"] then s!"propfail panic harness {op}" else
     match op with
     | "wkb" => handleWkb inp out
-    | "wkt" => Driver.C04.handleHostile inp out
-    | "mvt" => Driver.C03.handleHostile inp out
+    | "wkbnest" => handleNest inp out
+    | "wkt" => handleWkt inp out
+    | "mvt" => handleMvt inp out
     | "gj" => Driver.C02.handleHostile inp out
     | _ => "bad op " ++ op
   | [] => "bad empty"
